@@ -4,7 +4,7 @@
    send() passed the liveness test, in call order; s_taken = messages handed by the queue to a poll / to the WebSocket writer. *)
 From Coq Require Import NArith List Bool.
 Import ListNotations.
-From EIO Require Import Server ServerInv ServerProofs ServerCor.
+From EIO Require Import Server ServerInv ServerProofs ServerCor ServerDelivery.
 Open Scope N_scope.
 
 (* conservation, for every reachable state: what was accepted is what was taken followed by what is still queued *)
@@ -34,7 +34,17 @@ Proof. exact send_to_absent_is_noop. Qed.
 Example c03_init : forall cfg, Inv (init cfg) [].
 Proof. exact Inv_init. Qed.
 
+(* the link between the ghost field and the wire, for long polls: the packets a poll answers with are the head of the session's
+   queue, in order, and exactly these are recorded as taken - with the conservation invariant: a poll delivers the next messages
+   in the order in which send() accepted them, and a message leaves the queue only inside such an answer (or through the writer) *)
+Theorem c03_poll_response_is_taken : forall cfg me e i r t s, t_task e = TPoll i (PKGet r) t -> has i s = true ->
+  forall l, In (OResp r (R200 l)) (ServerInv.outof (run_task cfg me e s)) ->
+  s_taken (cur i (ServerInv.stof (run_task cfg me e s))) = s_taken (cur i s) ++ smids l /\
+  mids_of (s_q (cur i s)) = smids l ++ mids_of (s_q (cur i (ServerInv.stof (run_task cfg me e s)))).
+Proof. exact poll_response_is_taken. Qed.
+
 Print Assumptions c03_conservation.
 Print Assumptions c03_at_most_once.
 Print Assumptions c03_in_order.
 Print Assumptions c03_send_to_absent_is_noop.
+Print Assumptions c03_poll_response_is_taken.
